@@ -1048,47 +1048,74 @@ def rotation_plan(tier):
 
 # ------------------------------------------------------------------------------------------------------
 
-def collect(ctx, stop_at_first_unknown=False):
-    """Run everything on the implementation.  -> list of Case"""
-    kf = core.known_for("C17")
-    cases = []
-    workdir = str(ctx.work)
+def _run_job(job):
+    """executed in a worker process: one case on the implementation"""
+    kind, workroot, args = job
+    wd = os.path.join(workroot, "w%d" % os.getpid())
+    os.makedirs(wd, exist_ok=True)
+    try:
+        if kind == "history":
+            return history_case(args[0], args[1], wd)
+        if kind == "split":
+            return split_case(args[0], args[1], args[2], args[3], wd, args[4], matrix=args[5])
+        if kind == "rotation":
+            return rotation_case(args[0], args[1], args[2], args[3], wd, args[4])
+        raise ValueError(kind)
+    except Exception as e:  # the writer could not even be driven through the case
+        import traceback
+        meta = dict(kind=kind, args=repr(args), traceback=traceback.format_exc()[-1500:])
+        if kind == "history":
+            meta.update(target=args[0], history=list(args[1]))
+        elif kind == "split":
+            meta.update(target=args[0], history=list(args[1]), count=args[2], suffix_length=args[3], via=args[4], matrix=args[5])
+        else:
+            meta.update(template=args[0], ops=[list(o) if o != "C" else "C" for o in args[1]], clock=args[2], pre=args[3], archive=args[4])
+        return Case([], meta, ["running the case raised %s: %s" % (type(e).__name__, str(e)[:200])], None)
 
-    def add(c, canon, nontrivial=True):
-        cases.append(c)
-        ctx.count_case(canon, nontrivial=nontrivial)
-        if stop_at_first_unknown and c.problems and not known_class(kf, c.kcase or {}):
-            return True
-        return False
 
+def plan_jobs(ctx):
+    """-> list of (job, canonical key, nontrivial)"""
+    root = str(ctx.work)
+    jobs = []
     for tname, maxlen in history_plan(ctx.tier).items():
         for hist in histories(maxlen):
-            if add(history_case(tname, hist, workdir), ("history", tname, hist), nontrivial=len(hist) > 0):
-                return cases
+            jobs.append((("history", root, (tname, hist)), ("history", tname, hist), len(hist) > 0))
     ctx.notes.append("histories: " + ", ".join("%s<=%d" % kv for kv in history_plan(ctx.tier).items()))
     nsplit = 0
     for tname, n, count, suf, closing, via in split_plan(ctx.tier):
         letters = "A" if tname == "avro" else "AB"
         hist = tuple("W" + letters[i % len(letters)] for i in range(n)) + ((closing,) if closing != "Del" else ())
         nsplit += 1
-        if add(split_case(tname, hist, count, suf, workdir, via), ("split", tname, n, count, suf, closing, via)):
-            return cases
+        jobs.append((("split", root, (tname, hist, count, suf, via, True)), ("split", tname, n, count, suf, closing, via), True))
     # the split writer under arbitrary small histories
     maxlen = 3 if ctx.tier == "quick" else 4
     for tname in ("stream", "jsonfile"):
         for hist in histories(maxlen):
-            if not hist:
-                continue
-            if add(split_case(tname, hist, 2, 2, workdir, "writer", matrix=False), ("split-history", tname, hist)):
-                return cases
+            if hist:
+                jobs.append((("split", root, (tname, hist, 2, 2, "writer", False)), ("split-history", tname, hist), True))
     ctx.notes.append("split: %d matrix cases (N x limit x suffix length x target x closing op x writer|rdump) + histories <= %d on split://" % (nsplit, maxlen))
     nrot = 0
     for tkind, ops, clock, pre, archive in rotation_plan(ctx.tier):
         nrot += 1
-        if add(rotation_case(tkind, ops, clock, pre, workdir, archive), ("rotation", tkind, ops, clock, pre, archive)):
-            return cases
+        jobs.append((("rotation", root, (tkind, ops, clock, pre, archive)), ("rotation", tkind, ops, clock, pre, archive), True))
     ctx.notes.append("rotation: %d scenarios (operation sequences over two/three hour buckets and close, clock stepped / frozen / "
                      "same second, with and without pre-existing files, default / plain / json / archive:// templates)" % nrot)
+    return jobs
+
+
+def collect(ctx):
+    """Run everything on the implementation (in worker processes).  -> list of Case, in plan order"""
+    import multiprocessing as mp
+    descs()
+    jobs = plan_jobs(ctx)
+    nproc = max(1, min(8, (os.cpu_count() or 2) // 2))
+    if nproc == 1:
+        cases = [_run_job(j[0]) for j in jobs]
+    else:
+        with mp.get_context("fork").Pool(nproc) as pool:
+            cases = pool.map(_run_job, [j[0] for j in jobs], chunksize=40)
+    for (_, canon, nontrivial) in jobs:
+        ctx.count_case(canon, nontrivial=nontrivial)
     return cases
 
 
@@ -1120,7 +1147,7 @@ def _describe(meta):
 def search(ctx, reason):
     """the proof / translator broke: look for a concrete failing input on the implementation"""
     try:
-        cases = collect(ctx, stop_at_first_unknown=True)
+        cases = collect(ctx)
         terms, problems = next_path_cases()
     except Exception as e:  # noqa
         ctx.notes.append("search raised %r" % (e,))
